@@ -10,7 +10,7 @@ import random
 from .. import env, util
 from ..gen import queries as gq
 from ..model import qast, refcsv, refsem
-from ..monitors import contracts
+from ..monitors import boundary, contracts
 from . import common
 
 PROPERTY = 'C07'
@@ -334,15 +334,89 @@ def leg_wrong_length_names(ns, res, spec):
     res.sample({'leg': 'wrong-length-names', 'shapes': shapes[:4]})
 
 
+UNICODE_IDENT_NAMES = ['\u00b5g', 'o\ufb03ce', '\uff57\uff49\uff44\uff45', '\u00aa', '\u017f', '\u212a', '\u2126hm', '\u0438\u043c\u044f', 'gr\u00f6\u00dfe', '\u00e9', 'e\u0301', 'na\u00efve', '\u01c6', '\u2160x', 'x\u00b2'.replace('\u00b2', '\u1d43'), '\u03bcg', 'office']
+
+
+def leg_unicode_attribute_names(ns, res, spec):
+    """Column names that are identifiers beyond ASCII, addressed as a.<name> (several of them change under the host language's identifier normalisation,
+    NFKC in Python): the notation is either refused, or the output header carries the SOURCE column's name, character for character, and the
+    values are that column's."""
+    import io
+    from ..js import bridge
+    rng = random.Random(spec['seed'] * 31 + 11)
+    node = bridge.Node.start()
+    try:
+        for n in range(spec['n']):
+            w = rng.randrange(2, 5)
+            names = rng.sample(UNICODE_IDENT_NAMES, w)
+            A = [['r%dc%d' % (r, c) for c in range(w)] for r in range(3)]
+            col = rng.randrange(w)
+            nm = names[col]
+            shape = n % 5
+            if shape == 0:
+                q, exp_rows, exp_header = 'select a.%s, a1' % nm, [[A[r][col], A[r][0]] for r in range(3)], [nm, names[0]]
+            elif shape == 1:
+                q, exp_rows, exp_header = 'select NR, a.%s' % nm, [[r + 1, A[r][col]] for r in range(3)], ['NR', nm]
+            elif shape == 2:
+                q, exp_rows, exp_header = 'select distinct count a.%s' % nm, [[1, A[r][col]] for r in range(3)], ['count', nm]
+            elif shape == 3:
+                q, exp_rows, exp_header = 'select a.%s, count(*) group by a.%s' % (nm, nm), [[A[r][col], 1] for r in range(3)], [nm, 'col2']
+            else:
+                q, exp_rows, exp_header = 'select a.%s where a.%s != "zz"' % (nm, nm), [[A[r][col]] for r in range(3)], [nm]
+            runs = []
+            r = boundary.run_query_table(ns, q, [list(x) for x in A], None, list(names), None, True)
+            runs.append(('py/list', r['error'], r['error_msg'], r['rows'], r['header']))
+            # the CSV front-end (header line in the file)
+            try:
+                text = '\n'.join(','.join(x) for x in [names] + A) + '\n'
+                out = io.BytesIO()
+                out.close = lambda: None
+                it = ns.csv.CSVRecordIterator(io.BytesIO(text.encode('utf-8')), 'utf-8', ',', 'quoted', has_header=True)
+                wr = ns.csv.CSVWriter(out, False, 'utf-8', ',', 'quoted')
+                ns.rbql.query(q, it, wr, [])
+                lines = out.getvalue().decode('utf-8').split('\n')
+                runs.append(('py/csv', None, None, [[int(c) if c.isdigit() else c for c in ln.split(',')] for ln in lines[1:] if ln], lines[0].split(',')))
+            except Exception as e:
+                runs.append(('py/csv', util.error_class(e), str(e)[:120], None, None))
+            if node is not None:
+                o = node.call({'op': 'query_table', 'query': q, 'input': [list(x) for x in A], 'join': None, 'input_cols': list(names), 'join_cols': None})
+                runs.append(('js/list', o['error'] and o['error']['cls'], o['error'] and o['error']['msg'][:120], o['out'], o['header']))
+            for front, err, msg, rows, header in runs:
+                res.evaluations += 1
+                res.count('unicode_attribute_name_runs:' + front)
+                res.nontrivial('unicode-attr', front, q, repr(names))
+                if err is not None:
+                    res.count('unicode_attribute_name_refusals')
+                    continue
+                res.count('unicode_attribute_name_headers_checked')
+                pos = exp_header.index(nm)
+                hdr = list(header or [])
+                unresolved = len(hdr) == len(exp_header) and hdr[pos] == 'col%d' % (pos + 1) and all(len(x) == len(exp_header) and (x[pos] is None or x[pos] == {'__js__': 'undefined'}) for x in rows or [])
+                if unresolved:
+                    # (the name was not bound to any column: outside the documented "good alphanumeric name" scope of the notation, and no name is claimed for it)
+                    res.count('unicode_attribute_name_unresolved')
+                    continue
+                if shape == 2:
+                    exp_header = [hdr[0] if hdr else None, nm]
+                if hdr != exp_header or rows != exp_rows:
+                    res.violation('%s:non-ascii-attribute-name-header' % front.replace('/', '-'), '[%s] %s over header %r -> header %r rows %r ; the notation is refused or yields header %r rows %r' % (front, q, names, header, rows, exp_header, exp_rows),
+                                  {'leg': 'unicode-attr', 'front': front, 'query_text': q, 'names': names, 'A': A})
+    finally:
+        if node is not None:
+            node.close()
+
+
 def plan(tier, seed):
     k = NSHARDS[tier]
-    return [{'k': k, 'i': i, 'n': CASES[tier] // k} for i in range(k)] + [{'kind': 'wrong-length-names', 'n': 300 if tier == 'quick' else 3000}]
+    return [{'k': k, 'i': i, 'n': CASES[tier] // k} for i in range(k)] + [{'kind': 'wrong-length-names', 'n': 300 if tier == 'quick' else 3000}, {'kind': 'unicode-attr', 'n': 200 if tier == 'quick' else 2000}]
 
 
 def run_shard(spec, res):
     ns = env.import_rbql()
     if spec.get('kind') == 'wrong-length-names':
         return leg_wrong_length_names(ns, res, spec)
+    if spec.get('kind') == 'unicode-attr':
+        return leg_unicode_attribute_names(ns, res, spec)
     rng = random.Random(spec['seed'] * 67867967 + spec['i'])
     qt, mode = contracts.armed_query_table(ns)
     res.notes.append('contracts: ' + mode)
@@ -391,7 +465,7 @@ def summarize(tier, seed, m):
     shapes = sorted(k[6:] for k in m['counters'] if k.startswith('shape:'))
     return {
         'rule': 'select lists of 1-4 items over fields in five spellings, stars, NR / NF / aNR / bNR, calls of user functions with commas and brackets inside arguments and string literals (f("x, y", [a1, 2, [1]]), g(...)[0]), literals that look like syntax, typed expressions, UNNEST, aliases written as / AS; families rotating over plain, quotients (a slash right after a closing bracket and another one in a later item), DISTINCT, DISTINCT COUNT, TOP, GROUP BY with aggregates, * EXCEPT, UPDATE, JOIN, JOIN + DISTINCT COUNT; rectangular tables; header / no header alternating. Each case: rbql.query with probes vs reference header names, icontract-armed query_table, CSV writer (every case) and query_pandas_dataframe (every 4th) which enforce the width; every 4th headed case also through SqliteRecordIterator / SqliteDbRegistry over a table holding the same data (plain, with a GENERATED column VIRTUAL or STORED, through a VIEW) into the CSV writer; JS leg. distinct_nontrivial = distinct (query, header names) that produced an output header.',
-        'required': ['py_cases', 'headers_observed', 'contract_evaluations', 'csv_writer_runs', 'csv_reader_runs', 'csv_reader_runs_last_name_empty', 'wrong_length_names_runs', 'pandas_runs', 'sqlite_runs:plain', 'sqlite_runs:generated', 'sqlite_runs:view', 'js_cases'],
+        'required': ['unicode_attribute_name_runs:py/list', 'unicode_attribute_name_runs:py/csv', 'unicode_attribute_name_runs:js/list', 'py_cases', 'headers_observed', 'contract_evaluations', 'csv_writer_runs', 'csv_reader_runs', 'csv_reader_runs_last_name_empty', 'wrong_length_names_runs', 'pandas_runs', 'sqlite_runs:plain', 'sqlite_runs:generated', 'sqlite_runs:view', 'js_cases'],
         'extra': {'shapes_seen': shapes},
         'assumptions': ['rv/model/refsem.py header_names states the documented naming rule (DISTINCT COUNT: the count column is col1 and the following positional names count it)', 'parenthesised fields like (a1), mixed-case As, variable-width lists are outside the rule and not generated'],
     }
